@@ -17,7 +17,10 @@ MAGIC = bytes.fromhex("37a430ec")
 OFP_CONTENT = b""
 ADV_INFO = {}
 CMODES = [("usingDict", "-"), ("usingCDict", "-"), ("compress2", "load"), ("compress2", "loadref"), ("compress2", "cdict"),
-          ("compress2", "cdictref"), ("compress2", "prefix")]
+          ("compress2", "cdictref"), ("compress2", "prefix"), ("blcdict", "-"), ("compress2", "cdictraw"), ("compress2", "loadraw")]
+# dictionary IDs at every width threshold of the frame header's Dictionary_ID field
+DICT_IDS = [1, 255, 256, 65535, 65536, 65537, 65791, 65792, 32768, 77777, 2 ** 31 - 1, 2 ** 32 - 1, 254, 257, 65600, 2 ** 24]
+RAWMODES = ("prefix", "cdictraw", "loadraw")      # the dictionary bytes are content only: the frame names no dictionary
 DMODES = ["usingDict", "ddict", "ddictref", "loaddict", "multiddict", "multiddict2"]
 
 
@@ -107,7 +110,7 @@ def make_dicts(ctx, rng, mk):
         reps = rng.choice([(1, 4, 8), (1, 1, 1), (cl, cl, cl), (cl, 1, rng.randint(1, cl)), (rng.randint(1, cl), rng.randint(1, cl), rng.randint(1, cl)),
                            (0, 4, 8), (cl + 1, 4, 8), (1, 4, 0)])
         ADV_INFO["adv%d" % i] = (reps, content)
-        lines.append("M adv%d %d %s %s %s %s %d,%d,%d %s" % (i, rng.choice([1, 32768, 77777, 2 ** 31 - 1, 2 ** 32 - 1]), rand_huf(rng),
+        lines.append("M adv%d %d %s %s %s %s %d,%d,%d %s" % (i, DICT_IDS[i % len(DICT_IDS)], rand_huf(rng),
                                                               rand_norm(rng, 32, 8), rand_norm(rng, 53, 9), rand_norm(rng, 36, 9),
                                                               reps[0], reps[1], reps[2], codec.hx(content)))
     # the F6 witness shape: complete depth-12 Huffman + short LL table
@@ -254,8 +257,8 @@ def run(ctx):
                           what="compression with an accepted dictionary (%s, %s/%s) failed: %s" % (name, c["entry"], c["dictmode"], r[1]))
             continue
         c["frame"] = f = r[1]
-        prefix = c["dictmode"] == "prefix"
-        for dmode in (["refprefix"] if prefix else DMODES):
+        prefix = c["dictmode"] in RAWMODES
+        for dmode in (["refprefix", "rawdict"] if prefix else DMODES):
             dlines.append("D %s|%s %s - %s %s %d" % (c["id"], dmode, dmode, codec.hx(d), codec.hx(f), len(c["x"]) + 16))
         rcases.append((c["id"], "nostrict" + (",rawdict" if prefix else ""), d, f))
         formatted = d[:4] == MAGIC and len(d) >= 8 and not prefix
